@@ -131,6 +131,7 @@ class Acc:
         self._sigs = set()
         self.current = None  # the case being executed (for the watchdog)
         self.layers = {}  # layer -> dict(info)
+        self.sets = {}  # name -> set of hashes (e.g. distinct state keys across shards)
         self.t0 = time.time()
 
     # -- counting ---------------------------------------------------------
@@ -152,6 +153,15 @@ class Acc:
                 d[k] += v
             else:
                 d[k] = v
+
+    def add_key(self, name, key):
+        """Remember a state key (as a 64-bit hash) so that distinct states can be counted across shards."""
+        import hashlib
+
+        self.sets.setdefault(name, set()).add(hashlib.blake2b(key.encode("utf-8", "surrogatepass"), digest_size=8).digest())
+
+    def distinct(self, name):
+        return len(self.sets.get(name, ()))
 
     # -- violations -------------------------------------------------------
     def violation(self, clause, case, expected=None, observed=None, signature=None):
@@ -187,6 +197,8 @@ class Acc:
                     self.layers[name] = info
                 continue
             self.layer(name, **info)
+        for name, st in other.sets.items():
+            self.sets.setdefault(name, set()).update(st)
         self.violation_count += other.violation_count
         for v in other.violations:
             sig = v["signature"]
